@@ -456,6 +456,15 @@ class _Rename(ast.NodeTransformer):
 
     visit_Lambda = visit_FunctionDef
 
+    def visit_ClassDef(self, n):
+        # a plain local class (`class UserDumper(Dumper): output_format = fmt`): bases and attribute values read the helper's
+        # parameters, the attribute names and the class name are not locals of the helper
+        n.bases = [self.visit(b) for b in n.bases]
+        for st in n.body:
+            if isinstance(st, ast.Assign):
+                st.value = self.visit(st.value)
+        return n
+
 
 def _simple_arg(e: ast.AST) -> bool:
     if isinstance(e, (ast.Name, ast.Constant)):
@@ -549,6 +558,10 @@ class _Inliner:
                     or (isinstance(d, ast.Attribute) and d.attr == 'contextmanager')):
                 return False
         for n in ast.walk(fn):
+            if n is not fn and isinstance(n, ast.ClassDef) and n in fn.body and not n.decorator_list and not n.keywords and all(
+                    isinstance(st, ast.Pass) or (isinstance(st, ast.Expr) and isinstance(st.value, ast.Constant))
+                    or (isinstance(st, ast.Assign) and all(isinstance(t, ast.Name) for t in st.targets)) for st in n.body):
+                continue        # a plain local class made by the helper (class factory)
             if n is not fn and isinstance(n, (ast.FunctionDef, ast.AsyncFunctionDef, ast.ClassDef, ast.Lambda)):
                 return False
             if isinstance(n, (ast.Global, ast.Nonlocal, ast.Await)):
@@ -621,7 +634,8 @@ class _Inliner:
                 args.setdefault(p.arg, d)
         if set(params) - set(args):
             raise NotInlinable('missing argument')
-        stored = {n.id for n in ast.walk(g) if isinstance(n, ast.Name) and isinstance(n.ctx, (ast.Store, ast.Del))}
+        in_class = {id(x) for c_ in ast.walk(g) if isinstance(c_, ast.ClassDef) for x in ast.walk(c_)}
+        stored = {n.id for n in ast.walk(g) if isinstance(n, ast.Name) and isinstance(n.ctx, (ast.Store, ast.Del)) and id(n) not in in_class}
         stored |= {n.name for n in ast.walk(g) if isinstance(n, ast.ExceptHandler) and n.name}
         pre: List[ast.stmt] = []
         mapping: Dict[str, ast.AST] = {}
